@@ -98,41 +98,44 @@ Notation EV := (eval_loop go_text m).
 
 (** the implicit AND over a list of keys, given the step property of each *)
 Lemma list_step (l : list key) :
-  Forall (fun k => forall f rest, (depth k <= f)%nat ->
-            EV (S f) (key_tokens k ++ rest) = andk (SP k i sm) (EV f rest)) l ->
-  forall f, (pdepth l <= f)%nat -> EV (S f) (flat_map key_tokens l) = Some (spec_all nseq maxuid l i sm).
+  Forall (fun k => forall f rest ctx, (depth k <= f)%nat ->
+            EV (S f) (key_tokens k ++ rest) ctx = andk (SP k i sm) (EV f rest ctx)) l ->
+  forall f ctx, (pdepth l <= f)%nat -> EV (S f) (flat_map key_tokens l) ctx = Some (spec_all nseq maxuid l i sm).
 Proof.
-  induction 1 as [|k l Hk _ IH]; intros f L; [reflexivity|].
+  induction 1 as [|k l Hk _ IH]; intros f ctx L; [reflexivity|].
   cbn [pdepth fold_right] in L. fold (pdepth l) in L. cbn [flat_map]. rewrite Hk by lia.
   destruct f as [|f]; [lia|]. rewrite IH by lia. rewrite andk_some. reflexivity.
 Qed.
 
 Lemma key_step k : wf_key k = true -> key_class k mb = None ->
-  forall f rest, (depth k <= f)%nat -> EV (S f) (key_tokens k ++ rest) = andk (SP k i sm) (EV f rest).
+  forall f rest ctx, (depth k <= f)%nat -> EV (S f) (key_tokens k ++ rest) ctx = andk (SP k i sm) (EV f rest ctx).
 Proof.
-  induction k as [k A | k IH | a b IHa IHb | l IH] using key_ind2; intros W C f rest L.
-  - rewrite (atomic_class k mb A) in C. now apply (simple_step f mb i sm Hin Hmb).
-  - (* NOT *) pose proof (search_key_length_key mb k rest ltac:(exact W) ltac:(exact C)) as KL.
-    cbn [key_class wf_key depth] in *. cbn [key_tokens app]. rewrite el_not. cbv zeta. rewrite KL.
+  induction k as [k A | k IH | a b IHa IHb | l IH] using key_ind2; intros W C f rest ctx L.
+  - rewrite (atomic_class k mb A) in C. now apply (simple_step f mb i sm Hin Hmb ctx).
+  - (* NOT *) pose proof (search_key_length_key mb k (rest ++ ctx) ltac:(exact W) ltac:(exact C)) as KL.
+    cbn [key_class wf_key depth] in *. cbn [key_tokens app]. rewrite el_not. cbv zeta. rewrite <- app_assoc, KL.
     replace (length (key_tokens k ++ rest) <? length (key_tokens k))%nat with false
       by (symmetry; apply Nat.ltb_ge; rewrite app_length; lia).
     rewrite firstn_len_app, skipn_len_app.
     destruct f as [|[|f]]; try lia.
-    rewrite <- (app_nil_r (key_tokens k)) at 1. rewrite IH by (try assumption; lia).
+    pose proof (IH W C (S f) [] (rest ++ ctx) ltac:(lia)) as Ek. rewrite app_nil_r in Ek. rewrite Ek.
     cbn [eval_loop andk]. cbn [spec_eval]. destruct (SP k i sm); reflexivity.
   - (* OR *) cbn [key_class wf_key depth] in *. apply andb_true_iff in W as [W1 W2].
     destruct (key_class a mb) eqn:C1; [discriminate|].
-    pose proof (search_key_length_key mb a (key_tokens b ++ rest) W1 C1) as KL1.
-    pose proof (search_key_length_key mb b rest W2 C) as KL2.
-    cbn [key_tokens app]. rewrite <- app_assoc. rewrite el_or. cbv zeta. rewrite KL1, skipn_len_app, KL2.
+    pose proof (search_key_length_key mb a (key_tokens b ++ rest ++ ctx) W1 C1) as KL1.
+    pose proof (search_key_length_key mb b (rest ++ ctx) W2 C) as KL2.
+    cbn [key_tokens app]. rewrite <- app_assoc. rewrite el_or. cbv zeta.
+    replace ((key_tokens a ++ key_tokens b ++ rest) ++ ctx) with (key_tokens a ++ key_tokens b ++ rest ++ ctx)
+      by (now rewrite <- !app_assoc).
+    rewrite KL1, skipn_len_app, KL2.
     replace (length (key_tokens a ++ key_tokens b ++ rest) <? length (key_tokens a) + length (key_tokens b))%nat with false
       by (symmetry; apply Nat.ltb_ge; rewrite !app_length; lia).
-    rewrite firstn_len_app, firstn_len_app.
+    rewrite !skipn_len_app, firstn_len_app, firstn_len_app.
     replace (skipn (length (key_tokens a) + length (key_tokens b)) (key_tokens a ++ key_tokens b ++ rest)) with rest
       by (rewrite app_assoc, <- app_length; symmetry; apply skipn_len_app).
     destruct f as [|[|f]]; try lia.
-    rewrite <- (app_nil_r (key_tokens a)) at 1. rewrite IHa by (try assumption; try reflexivity; lia).
-    rewrite <- (app_nil_r (key_tokens b)) at 1. rewrite IHb by (try assumption; lia).
+    pose proof (IHa W1 eq_refl (S f) [] ((key_tokens b ++ rest) ++ ctx) ltac:(lia)) as Ea. rewrite app_nil_r in Ea. rewrite Ea.
+    pose proof (IHb W2 C (S f) [] (rest ++ ctx) ltac:(lia)) as Eb. rewrite app_nil_r in Eb. rewrite Eb.
     cbn [eval_loop andk]. cbn [spec_eval]. destruct (SP a i sm), (SP b i sm); reflexivity.
   - (* parenthesised list *) cbn [key_class wf_key depth] in *. apply andb_true_iff in W as [W _].
     apply first_class_none in C. rewrite forallb_forall in W.
@@ -144,15 +147,15 @@ Proof.
     destruct f as [|f]; [lia|].
     rewrite (list_step l); [| | fold (pdepth l) in L; lia].
     + cbn [seqk spec_eval]. unfold spec_all. destruct (forallb _ l); reflexivity.
-    + rewrite Forall_forall in *. intros k Hk f' rest' L'. apply IH; auto.
+    + rewrite Forall_forall in *. intros k Hk f' rest' ctx' L'. apply IH; auto.
 Qed.
 
 Lemma prog_step ks : forallb wf_key ks = true -> classify ks mb = None ->
-  forall f, (pdepth ks <= f)%nat -> EV (S f) (prog_tokens ks) = Some (spec_all nseq maxuid ks i sm).
+  forall f, (pdepth ks <= f)%nat -> EV (S f) (prog_tokens ks) [] = Some (spec_all nseq maxuid ks i sm).
 Proof.
-  intros W C. apply list_step. rewrite forallb_forall in W.
+  intros W C f L. apply list_step; [|exact L]. rewrite forallb_forall in W.
   assert (CF : Forall (fun k => key_class k mb = None) ks).
-  { clear W. induction ks as [|k ks IH]; constructor; cbn [classify] in C; destruct (key_class k mb) eqn:E; try discriminate; auto. }
-  rewrite Forall_forall in *. intros k Hk f rest L. apply key_step; auto.
+  { clear W L. induction ks as [|k ks IH]; constructor; cbn [classify] in C; destruct (key_class k mb) eqn:E; try discriminate; auto. }
+  rewrite Forall_forall in *. intros k Hk f' rest ctx L'. apply key_step; auto.
 Qed.
 End Prog.
